@@ -652,7 +652,7 @@ func (r *sliceRoot) Resolve(f *ggql.Field, _ map[string]interface{}) (interface{
 }
 
 func coerceSliceExec(l []sx.S) sx.S {
-	tn := sx.List(l[2])[1].(string)
+	tn := coerceTypeText(l[2]) // a scalar, or a list of a scalar (the slice is then one level short)
 	vals := sx.List(l[3])[1:]
 	gos := make([]interface{}, len(vals))
 	same := true
@@ -799,8 +799,20 @@ func coerceGen(dir string) func(r *rand.Rand, tier string) []Case {
 				nsl = 6000
 			}
 			for i := 0; i < nsl; i++ {
-				t := sx.L("sc", scalarNames[r.Intn(len(scalarNames))])
+				var t sx.S = sx.L("sc", scalarNames[r.Intn(len(scalarNames))])
+				if i%8 == 7 {
+					// the field is a list of lists and the resolver answers with a flat typed slice:
+					// every element stands where a list is declared
+					t = sx.L("l", t)
+				}
 				v0 := leaves[r.Intn(len(leaves))]
+				if i%8 == 7 && i%16 == 7 {
+					// ... with the slice the element type would take as it is: []string for [[String]], [[ID]]
+					t = sx.L("l", sx.L("sc", []string{"String", "ID", "String"}[r.Intn(3)]))
+					for sx.Head(v0) != "s" {
+						v0 = leaves[r.Intn(len(leaves))]
+					}
+				}
 				vals := []sx.S{"vals", v0}
 				for j := 1 + r.Intn(3); j > 0; j-- {
 					// mostly values described the same way (same Go type), sometimes anything
@@ -931,7 +943,7 @@ func coerceValid(input sx.S) bool {
 	root := ggql.NewRoot(nil)
 	_ = root.ParseString(coerceSDL)
 	if l[1].(string) == "outx" {
-		if sx.Head(l[2]) != "sc" || sx.Head(l[3]) != "vals" || len(sx.List(l[3])) < 2 {
+		if !(sx.Head(l[2]) == "sc" || (sx.Head(l[2]) == "l" && sx.Head(sx.List(l[2])[1]) == "sc")) || sx.Head(l[3]) != "vals" || len(sx.List(l[3])) < 2 {
 			return false
 		}
 		for _, v := range sx.List(l[3])[1:] {
